@@ -374,6 +374,10 @@ def _stmt(w, s, depth, inline):
         if s["f"]["s"] != "none":
             w.w(" finally ")
             braced(w, s["f"], depth)
+    elif k == "raw":
+        # source text given by the specification as it is (one line): programs that are NOT in the language
+        # (C15: syntax errors in every position of a batch); no MiniJS semantics, never judged against the machine
+        w.w(s["t"])
     else:
         raise RenderError("unknown statement %r" % (k,))
 
